@@ -1,12 +1,13 @@
 SPECIFICATION Spec
 CONSTANTS
- Threads = {1, 2, 3}
+ Threads = {1, 2}
  Keys = {1}
  R = 2
- MaxTime = 4
- MaxCalls = 6
+ MaxTime = 2
+ MaxCalls = 3
  WriteInLock = TRUE
  MaxFails = 1
- ReleaseOnError = TRUE
+ ReleaseOnError = FALSE
  Recheck = TRUE
+INVARIANT NoLeak
 CHECK_DEADLOCK FALSE
